@@ -1,5 +1,6 @@
 //! C20 — the scrubbing helpers.
 //! @encodes net_utils::scrub_sni
+//! @assume core::slice::memchr::{memchr, memrchr} (word-at-a-time search whose fast path depends on the symbolic alignment of the haystack) are replaced by byte-wise loops
 //! @assume whether every log statement applies the helpers is a whole-program question outside the claim
 use super::*;
 
@@ -9,20 +10,20 @@ use super::*;
 fn scrub_sni_shape<const P: usize, const L: usize, const OUT: usize>() {
     // OUT = 8 + (L - P) when P < L, else L
     let tail: [u8; L] = kani::any();
-    let mut store = std::mem::ManuallyDrop::new([0u8; 160]);
+    let mut v = Vec::with_capacity(L);
     let mut i = 0;
     while i < L {
         if i < P {
-            store[i] = b'q';
+            v.push(b'q');
         } else if i == P {
-            store[i] = b'.';
+            v.push(b'.');
         } else {
             kani::assume(tail[i] == b'a' || tail[i] == b'b' || tail[i] == b'.');
-            store[i] = tail[i];
+            v.push(tail[i]);
         }
         i += 1;
     }
-    let s = unsafe { String::from_raw_parts(store.as_mut_ptr(), L, 160) };
+    let s = unsafe { String::from_utf8_unchecked(v) };
     let out = std::mem::ManuallyDrop::new(scrub_sni(s));
     let ob = out.as_bytes();
     if P >= L {
@@ -51,9 +52,9 @@ fn scrub_sni_shape<const P: usize, const L: usize, const OUT: usize>() {
 }
 
 /*@gen
-{"name": "c20_scrub_sni_label{0}_len{1}", "call": "scrub_sni_shape::<{0}, {1}, {2}>()", "unwind": "{1} + 12", "stubs": ["utf8"], "core": true,
+{"name": "c20_scrub_sni_label{0}_len{1}", "call": "scrub_sni_shape::<{0}, {1}, {2}>()", "unwind": "{1} + 12", "stubs": ["memchr"], "core": true,
  "bound": "SNI of {1} bytes whose first dot is at offset {0} (offset == length: no dot); label = filler, host part symbolic over a, b, dot",
  "desc": "scrub_sni replaces the label before the first dot by the placeholder whatever its length (including the DNS maximum of 63 bytes and beyond) and leaves dot-free names unchanged",
  "encodes": ["net_utils::scrub_sni"],
- "quick": "[(0,3,11),(1,4,11),(3,7,12),(5,5,5),(63,68,13),(64,68,12)]", "thorough": "[(62,66,12),(2,2,2),(100,104,12),(7,12,13)]"}
+ "quick": "[(0,3,11),(1,4,11),(3,7,12),(5,5,5),(12,14,10)]", "thorough": "[(63,68,13),(64,68,12),(2,2,2),(7,12,13),(17,20,11)]"}
 @*/
